@@ -55,13 +55,17 @@ Definition lift {A} (x : pstate * res A) (k : pstate -> A -> pstate * res unit) 
   | (p, Fail c) => (p, Fail c)
   end.
 
+(* only records that carry encoded content (tape Size > 0) had the codec suffixes added *)
+Definition indexed_name (c : cfg) (h0 : hdr) : str :=
+  if tf_regular (h_tf h0) && (0 <? h_size h0) then remove_suffix c (h_name h0) else h_name h0.
+
 Definition index_header (c : cfg) (rec blk : N) (h0 : hdr) (initializing : bool) (p : pstate) : pstate * res unit :=
   match (match pax_get K_usize (h_pax h0) with
          | Some v => match undecimal v with Some n => Some n | None => None end
          | None => Some (h_size h0) end) with
   | None => (p, Fail E_atoi)
   | Some sz =>
-    let nm := if tf_regular (h_tf h0) then remove_suffix c (h_name h0) else h_name h0 in
+    let nm := indexed_name c h0 in
     let h := with_size_name h0 sz nm in
     let ver := match pax_get K_version (h_pax h) with Some v => v | None => V_1 end in
     if negb (eqb_str ver V_1) then (p, Fail E_version) else
